@@ -24,12 +24,23 @@ func genC10(seed uint64) *Scenario {
 	r := NewRand(seed)
 	g := &Gen{r: r}
 	sc := &Scenario{Property: "C10", GenSeed: seed, Seed: r.U64(), Pool: swarmPool(r)}
-	var doc string
+	var doc, twin string
 	if ids := FixtureIDs(); len(ids) > 0 && r.Chance(200) {
 		doc = pick(r, ids)
 	} else {
-		d, _ := GenSpec(r, pick(r, []int{0, 1, 2, 2, 3, 4}))
-		doc = js(d)
+		// several rule-breaking edits per document: with continue-on-errors every rule runs, so one validation exercises
+		// many rules (and several offenders of one rule are what order dependence needs)
+		nedits := pick(r, []int{0, 1, 2, 2, 3, 4, 6, 8})
+		if r.Chance(250) {
+			b, w := GenSpecTwin(r, nedits)
+			doc = js(b)
+			if w != nil {
+				twin = js(w)
+			}
+		} else {
+			d, _ := GenSpec(r, nedits)
+			doc = js(d)
+		}
 	}
 	v := newVocab(g, 2, 1, 1, 2)
 	var ops []Op
@@ -79,6 +90,14 @@ func genC10(seed uint64) *Scenario {
 			op.Kind, op.COE = KSpec, bp(*ops[0].COE)
 		}
 		add(op)
+	}
+	if twin != "" {
+		// the twin (same document plus warning-only conditions) under both settings: its errors must be those of the document
+		sc.Params = map[string]any{"twin_of": doc}
+		for _, coe := range []bool{true, false} {
+			add(Op{Kind: KSpec, Doc: doc, COE: bp(coe), OrderSeed: r.U64() | 1, SharedMeta: sharedMeta, Role: "twin-base"})
+			add(Op{Kind: KSpec, Doc: twin, COE: bp(coe), OrderSeed: r.U64() | 1, SharedMeta: sharedMeta, Role: "twin"})
+		}
 	}
 	sc.Tasks = [][]Op{ops}
 	return sc
@@ -385,6 +404,23 @@ func runC10(sc *Scenario, keepLog bool) *RunReport {
 			if so.valid != (len(so.errors) == 0) {
 				viol(i, op, "validity", "verdict", fmt.Sprint(len(so.errors) == 0), fmt.Sprint(so.valid), "verdict is not 'no errors'")
 				break
+			}
+		}
+		if op.Role == "twin" && out.Panic == "" {
+			// warnings alone never make a document invalid: the same document without the warning-only conditions has the
+			// same verdict and the same errors
+			if base, _ := sc.Params["twin_of"].(string); base != "" {
+				if f, ok := seen[fmt.Sprintf("%s|%v", base, eff)]; ok && f.out.panic == "" {
+					rep.fault("warning-only-twin-compared", 1)
+					if f.out.valid != so.valid || strings.Join(f.out.errors, "\n") != strings.Join(so.errors, "\n") {
+						viol(i, op, "warnings-change-errors", mismatchSpec(specOutcome{valid: f.out.valid, errors: f.out.errors}, specOutcome{valid: so.valid, errors: so.errors}), f.out.key(), so.key(),
+							fmt.Sprintf("this document is the document of validation #%d plus conditions that only warrant warnings, yet its verdict or its errors differ (continue-on-errors=%v)", f.op, eff))
+						break
+					}
+					if len(so.warnings) <= len(f.out.warnings) {
+						rep.probe("twin-without-extra-warning", 1)
+					}
+				}
 			}
 		}
 		key := fmt.Sprintf("%s|%v", op.Doc, eff)
